@@ -24,6 +24,7 @@ package circuitbreaker
 //@ func (*CircuitBreaker).IOHandler
 //@   prop C20
 //@   nopanic
+//@   havoc
 //@   requires cb != nil
 //@   stable cb.failCount, cb.lastFailTime, cb.threshold, cb.recoverTime
 //@   let open0 = cb.failCount > cb.threshold
@@ -48,6 +49,7 @@ package circuitbreaker
 
 //@ func (*CircuitBreaker).InvokeHandler
 //@   prop C20
+//@   havoc
 //@   requires cb != nil
 //@   stable cb.mockService
 //@   ensures [calls_next_once] ghost.fwd == old(ghost.fwd) + 1
